@@ -1380,6 +1380,13 @@ impl Machine {
             }
             Sem::Abs => {
                 let v = self.pop()?;
+                // The sign of abs(-0.0) and abs(NaN) is not defined by the standard or the
+                // rustdoc (gimli keeps the sign bit: `if value < 0. { -value } else { value }`).
+                match v {
+                    MVal::F32(f) if f.is_nan() || (f == 0.0 && f.is_sign_negative()) => return Err(Flow::Done(vec![Expect::Unspec("sign of abs(-0.0) / abs(NaN)")])),
+                    MVal::F64(f) if f.is_nan() || (f == 0.0 && f.is_sign_negative()) => return Err(Flow::Done(vec![Expect::Unspec("sign of abs(-0.0) / abs(NaN)")])),
+                    _ => {}
+                }
                 let r = match v {
                     MVal::F32(f) => MVal::F32(f.abs()),
                     MVal::F64(f) => MVal::F64(f.abs()),
